@@ -139,7 +139,7 @@ def run(tier: str) -> int:
     stats = Counter()
     samples, distinct = [], set()
     evaluations = 0
-    t_budget = 110 if tier == "quick" else 1800
+    t_budget = 110 if tier == "quick" else 2400
 
     def judge(prog, version, opts, expect_ok, what, extra=None, key_on_crash=None):
         nonlocal evaluations
@@ -159,18 +159,29 @@ def run(tier: str) -> int:
         return res, cls
 
     # ---- (a) exhaustive control skeletons
+    # sizes: 6 / 60 / 888 / 17 040 / 384 288 skeleton programs with 0..4 control nodes.  quick: exhaustive up to 2 nodes and a
+    # seeded 12 % sample of the 3-node ones; thorough: exhaustive up to 3 nodes and a seeded 2 % sample of the 4-node ones, the
+    # sample cut off by the time budget (a cut is recorded in the evidence)
     maxn = 3 if tier == "quick" else 4
     versions = [2, 4, 8, 9, 10] if tier == "quick" else [2, 3, 4, 5, 6, 7, 8, 9, 10]
     nsk = 0
+    sk_budget = 10 ** 9 if tier == "quick" else 1500
     for sk, placement, prog in skeleton_programs(maxn):
         if tier == "quick" and count_nodes(sk) >= 3 and r.random() > 0.12:
-            continue        # quick: exhaustive up to 2 control nodes, a seeded 12 % sample of the 3-node skeletons
+            continue
+        if count_nodes(sk) >= 4:
+            if r.random() > 0.02:
+                continue
+            if time.time() - rep.t0 > sk_budget:
+                stats["skeletons:4-node sample cut by time budget"] += 1
+                continue
         nsk += 1
         has_sub = bool(prog.subs)
         need = 4 if has_sub else 2
-        vs = versions if tier == "thorough" else r.sample(versions, 1)
+        small = count_nodes(sk) <= 2
+        vs = versions if (tier == "thorough" and small) else r.sample(versions, 1 if tier == "quick" else 2)
         for v in vs:
-            for opts in (option_sets(v, has_sub) if tier == "thorough" else r.sample(option_sets(v, has_sub), 1)):
+            for opts in (option_sets(v, has_sub) if (tier == "thorough" and small) else r.sample(option_sets(v, has_sub), 1)):
                 expect = v >= need
                 judge(prog, v, opts, expect, "skeleton", {"skeleton": repr(sk), "placement": placement})
         if len(samples) < 3 and nsk % 97 == 1:
